@@ -1629,6 +1629,7 @@ sexp sexp_apply (sexp ctx, sexp proc, sexp args) {
     i = sexp_unbox_string_cursor(_ARG2);
     if ((i < 0) || (i >= (sexp_sint_t)sexp_string_size(_ARG1)))
       sexp_raise("string-ref: index out of range", sexp_list2(ctx, _ARG1, _ARG2));
+    sexp_context_top(ctx) = top;
     _ARG2 = sexp_string_cursor_ref(ctx, _ARG1, _ARG2);
     top--;
     sexp_check_exception();
@@ -1800,8 +1801,10 @@ sexp sexp_apply (sexp ctx, sexp proc, sexp args) {
       if (sexp_unbox_fixnum(_ARG3) < 0 || sexp_unbox_fixnum(_ARG3) >= (sexp_sint_t)sexp_vector_length(sexp_type_getters(_ARG1)))
         sexp_raise("slotn-ref: slot out of bounds", sexp_list2(ctx, _ARG3, sexp_make_fixnum(sexp_type_field_len_base(_ARG1))));
       tmp1 = sexp_vector_ref(sexp_type_getters(_ARG1), _ARG3);
-      if (sexp_opcodep(tmp1))
+      if (sexp_opcodep(tmp1)) {
+        sexp_context_top(ctx) = top;
         _ARG3 = ((sexp_proc2)sexp_opcode_func(tmp1))(ctx, tmp1, 1, _ARG2);
+      }
       else
         sexp_raise("slotn-ref: no getter defined", sexp_list1(ctx, _ARG3));
     } else {
@@ -1829,8 +1832,10 @@ sexp sexp_apply (sexp ctx, sexp proc, sexp args) {
       if (sexp_unbox_fixnum(_ARG3) < 0 || sexp_unbox_fixnum(_ARG3) >= (sexp_sint_t)sexp_vector_length(sexp_type_setters(_ARG1)))
         sexp_raise("slotn-set!: slot out of bounds", sexp_list2(ctx, _ARG3, sexp_make_fixnum(sexp_type_field_len_base(_ARG1))));
       tmp1 = sexp_vector_ref(sexp_type_setters(_ARG1), _ARG3);
-      if (sexp_opcodep(tmp1))
+      if (sexp_opcodep(tmp1)) {
+        sexp_context_top(ctx) = top;
         _ARG4 = ((sexp_proc3)sexp_opcode_func(tmp1))(ctx, tmp1, 2, _ARG2, _ARG4);
+      }
       else
         sexp_raise("slotn-set!: no setter defined", sexp_list1(ctx, _ARG3));
     } else {
